@@ -65,8 +65,8 @@ func (v c19Val) String() string {
 	return s
 }
 
-func c19Int(i *big.Int) c19Val   { return c19Val{R: new(big.Rat).SetInt(i)} }
-func c19Int64(i int64) c19Val    { return c19Val{R: new(big.Rat).SetInt64(i)} }
+func c19Int(i *big.Int) c19Val     { return c19Val{R: new(big.Rat).SetInt(i)} }
+func c19Int64(i int64) c19Val      { return c19Val{R: new(big.Rat).SetInt64(i)} }
 func c19Special(c c19Class) c19Val { return c19Val{Class: c} }
 
 var c19Two = big.NewInt(2)
